@@ -76,6 +76,28 @@ CHECKS = {
              "but has no theorem yet; sortable_proxy/argmax/argmin/amax/amin are checked as relations on /repo's output "
              "(permutation, monotone in (leading exponent, leading coefficient), extreme element) by the harness, not "
              "proved; todict is compared term by term. Integer coefficients."),
+    "C03": dict(
+        technique="Coq proof: from_attributes/clean (regenerated predicates bridged from clean.py) returns well-formed "
+                  "arrays, never changes the denotation, is total on well-formed input, identity with retain flags on; "
+                  "invariant over expression trees; layout facts checked on /repo's objects; vm_compute correspondence",
+        text="Theorems (Props/P_C03.v): whatever from_attributes returns satisfies the well-formedness predicate and "
+             "denotes the input term list; it never fails on well-formed attributes; with retain flags on it is the "
+             "identity (round trip), with them off it keeps exactly the terms with a non-zero coefficient or zero "
+             "exponent (or the zero constant); duplicate names/rows are rejected; every result of every expression tree "
+             "over the ring operators is well-formed. Bridge: keep-term predicate, fallback, name rule and step order of "
+             "clean.py are the modelled ones.",
+        note="Trusted: Coq kernel+VM, MathComp/SsrMultinomials; translator clean_tr.py (partly textual matching on "
+             "ast.unparse). The raw-view/todict rebuild paths and the results of the 17 sampled operations are checked on "
+             "/repo's objects by the harness (facts of the property evaluated directly), not proved. Default allocation only."),
+    "C04": dict(
+        technique="Coq proof: aligners preserve absE (gather/widen/zero-fill lemmas), share shape/names/rows, are "
+                  "idempotent; bridge over align.py facts; vm_compute correspondence at layout level + relational facts on /repo",
+        text="Theorems (Props/P_C04.v): align_shape gives the broadcast value in the target shape; align_indeterminants "
+             "keeps the value and yields the sorted union of names; align_exponents/align_polynomials on any number of "
+             "operands return, in argument order, arrays that denote their inputs and share names and the sorted, "
+             "duplicate-free union of exponent rows; a second alignment changes nothing.",
+        note="Trusted: Coq kernel+VM, MathComp/SsrMultinomials; translator clean_tr.py. 'Arguments never modified' is "
+             "checked by byte snapshots on /repo (and belongs to C17). Integer coefficients; dtype promotion is C12's subject."),
 }
 
 
